@@ -322,3 +322,30 @@ def validate_twin(parts_a, parts_b, mode, timeout=1800):
             res["wall"] += o["wall"]
             res["matched"] = [x + y for x, y in zip(res["matched"], o["matched"])]
     return res
+
+
+def apalache_inductive(run_if_missing, timeout=2400):
+    """Inductive invariant of spec/CounterInd.tla (reservation scheme of the known-size kinds) with Apalache:
+    Init => IndInv; IndInv /\\ Next => IndInv'; IndInv => Safe.  Cached by the content of the file."""
+    path = os.path.join(SPEC, "CounterInd.tla")
+    key = "apalache_%s" % tree_hash([path])
+    c = cache_get(key)
+    if c or not run_if_missing:
+        return c
+    obligations = [("Init => IndInv", ["--init=Init", "--inv=IndInv", "--length=0"]),
+                   ("IndInv /\\ Next => IndInv'", ["--init=IndInit", "--inv=IndInv", "--length=1"]),
+                   ("IndInv => Safe", ["--init=IndInit", "--inv=Safe", "--length=0"])]
+    out = {"file": "spec/CounterInd.tla", "obligations": [], "constants": "3 threads, length 4, requests <= 6; unbounded number of calls and counter values"}
+    wd = os.path.join(WORK, "apalache")
+    os.makedirs(wd, exist_ok=True)
+    for name, args in obligations:
+        t0 = time.time()
+        p = sh(["timeout", str(timeout), "apalache-mc", "check", "--cinit=ConstInit"] + args + ["--out-dir=" + wd, path], cwd=wd)
+        ok = "The outcome is: NoError" in p.stdout
+        out["obligations"].append({"name": name, "discharged": ok, "wall": round(time.time() - t0, 1)})
+        if not ok and p.returncode == 124:
+            raise ToolError("apalache timed out on " + name)
+    shutil.rmtree(wd, ignore_errors=True)
+    out["all_discharged"] = all(o["discharged"] for o in out["obligations"])
+    cache_put(key, out)
+    return out
